@@ -38,16 +38,39 @@ struct FnDecl {
     /// an additional `?Sized` (imposes nothing; may only be written where the parameter is declared)
     maybe_sized: bool,
     is_async: bool,
+    /// bit i: the i-th written bound is parenthesised (`(B0)`, `(for<'x> L<'x>)`, `(?Sized)`)
+    paren_mask: u32,
+    /// a higher-ranked bound in the where clause is written with the binder on the predicate: `for<'x> D: L<'x>`
+    pred_binder: bool,
 }
 
 impl FnDecl {
     fn render(&self, vis: &str) -> String {
-        let mut names: Vec<&str> = self.bounds.iter().map(|b| POOL[*b]).collect();
+        let mut names: Vec<String> = self.bounds.iter().map(|b| POOL[*b].to_string()).collect();
         let amp = if self.by_value { "" } else { "&" };
         let ms = self.maybe_sized && !self.by_value && matches!(self.form, 0 | 2 | 3) && !names.is_empty();
         if ms {
-            names.insert(0, "?Sized");
+            names.insert(0, "?Sized".to_string());
         }
+        for (i, n) in names.iter_mut().enumerate() {
+            if self.paren_mask & (1 << i) != 0 {
+                *n = format!("({n})");
+            }
+        }
+        // where-clause part of the bounds: `where D: A + B` or, with the binder on the predicate, `where D: A, for<'x> D: L<'x>`
+        let where_preds = |part: &[String]| -> String {
+            let hr = "for<'x> L<'x>";
+            if self.pred_binder && part.iter().any(|n| n == hr) {
+                let rest: Vec<&str> = part.iter().filter(|n| *n != hr).map(|n| n.as_str()).collect();
+                if rest.is_empty() {
+                    "for<'x> D: L<'x>".to_string()
+                } else {
+                    format!("D: {}, for<'x> D: L<'x>", rest.join(" + "))
+                }
+            } else {
+                format!("D: {}", part.join(" + "))
+            }
+        };
         let q = if self.is_async { "async " } else { "" };
         let joined = names.join(" + ");
         match (self.form, names.is_empty()) {
@@ -59,7 +82,7 @@ impl FnDecl {
                 }
             }
             (0, _) => format!("{vis}{q}fn {}<D: {joined}>(deps: {amp}D) {{}}", self.name),
-            (1, _) => format!("{vis}{q}fn {}<D>(deps: {amp}D) where D: {joined} {{}}", self.name),
+            (1, _) => format!("{vis}{q}fn {}<D>(deps: {amp}D) where {} {{}}", self.name, where_preds(&names)),
             (2, _) => format!("{vis}{q}fn {}(deps: {amp}{}impl {joined}{}) {{}}", self.name, if amp.is_empty() { "" } else { "(" }, if amp.is_empty() { "" } else { ")" }),
             _ => {
                 let k = (names.len() + 1) / 2;
@@ -67,7 +90,7 @@ impl FnDecl {
                 if b.is_empty() {
                     format!("{vis}{q}fn {}<D: {}>(deps: {amp}D) {{}}", self.name, a.join(" + "))
                 } else {
-                    format!("{vis}{q}fn {}<D: {}>(deps: {amp}D) where D: {} {{}}", self.name, a.join(" + "), b.join(" + "))
+                    format!("{vis}{q}fn {}<D: {}>(deps: {amp}D) where {} {{}}", self.name, a.join(" + "), where_preds(b))
                 }
             }
         }
@@ -97,7 +120,7 @@ pub fn gen_case(t: &mut Tape, feature_unimock: bool) -> Case {
                 bounds.push(b);
             }
         }
-        fns.push(FnDecl { name: format!("f{i}"), by_value: t.chance(1, 5), bounds, form: t.choose(4) as u8, maybe_sized: t.chance(1, 6), is_async: t.chance(1, 5) });
+        fns.push(FnDecl { name: format!("f{i}"), by_value: t.chance(1, 5), bounds, form: t.choose(4) as u8, maybe_sized: t.chance(1, 6), is_async: t.chance(1, 5), paren_mask: if t.chance(1, 4) { t.raw() & 0x3f } else { 0 }, pred_binder: t.flip() });
     }
     // mock settings (never exported here: the derivations stay inert, but they decide which types get the impl)
     let mock_api = t.chance(1, 3);
@@ -217,6 +240,12 @@ pub fn gen_case(t: &mut Tape, feature_unimock: bool) -> Case {
     }
     src.push_str("    fails\n}\n");
     let mut classes = vec![];
+    if fns.iter().any(|f| f.paren_mask != 0 && !f.bounds.is_empty()) {
+        classes.push("parenthesised_bound");
+    }
+    if fns.iter().any(|f| f.pred_binder && f.bounds.contains(&8) && (f.form == 1 || (f.form == 3 && f.bounds.len() >= 2))) {
+        classes.push("higher_ranked_binder_on_where_predicate_or_split");
+    }
     if mockable {
         classes.push("mockable");
     } else if mock_api || unimock_opt.is_some() || mockall_opt.is_some() {
